@@ -563,6 +563,62 @@ fn varint_check(input: &[u8], ev: &Evidence) -> CaseResult {
     Ok(())
 }
 
+/// Values whose encoded collections sit exactly on the boundaries of the variable-length size header (63/64, 16383/16384 bytes
+/// of content), and proposals of the reserved types: encode, report the length, decode again.
+fn boundary_values(ev: &Evidence) -> CaseResult {
+    use mls_rs::group::proposal::{CustomProposal, Proposal, ProposalType};
+    fn check<T: MlsDecode + MlsEncode + MlsSize + PartialEq>(what: &str, v: &T, ev: &Evidence) -> CaseResult {
+        ev.eval(1);
+        let enc = match v.mls_encode_to_vec() {
+            Ok(e) => e,
+            Err(_) => {
+                ev.class(&format!("boundary:{what}:not_encodable"));
+                return Ok(());
+            }
+        };
+        if v.mls_encoded_len() != enc.len() {
+            return Err(Failure::new(format!("{P}|boundary|{what}|mls_encoded_len_differs_from_bytes_written"), format!("reported {} written {}", v.mls_encoded_len(), enc.len())));
+        }
+        let mut rd = &enc[..];
+        match T::mls_decode(&mut rd) {
+            Ok(d) if d == *v && rd.is_empty() => {
+                ev.class(&format!("boundary:{what}"));
+                ev.nontrivial(&(what, enc.len()));
+                Ok(())
+            }
+            Ok(_) => Err(Failure::new(format!("{P}|boundary|{what}|round_trip_differs"), format!("{} bytes", enc.len()))),
+            Err(e) => Err(Failure::new(format!("{P}|boundary|{what}|own_encoding_does_not_decode"), format!("{} bytes: {e:?}", enc.len()))),
+        }
+    }
+    let hdr = |d: usize| if d < 64 { 1 } else if d < 16384 { 2 } else { 4 };
+    for target in [62usize, 63, 64, 65, 66, 16382, 16383, 16384, 16385, 16386] {
+        // ExtensionList with one extension: content = type(2) + header(data) + data
+        for d in target.saturating_sub(8)..=target {
+            if 2 + hdr(d) + d == target {
+                let mut l = mls_rs::ExtensionList::new();
+                l.set(mls_rs::Extension::new(0xF0A0u16.into(), vec![0xAB; d]));
+                check(&format!("ExtensionList_content_{target}"), &l, ev)?;
+                // nested: the list inside a GroupContext extension vector inside a larger value
+                let mut outer = mls_rs::ExtensionList::new();
+                outer.set(mls_rs::Extension::new(0xF0A1u16.into(), l.mls_encode_to_vec().unwrap_or_default()));
+                check(&format!("ExtensionList_nested_{target}"), &outer, ev)?;
+            }
+        }
+        // a vector of u16-sized items: Capabilities.extensions
+        if target % 2 == 0 {
+            let caps = mls_rs::group::Capabilities { extensions: (0..target / 2).map(|i| (0xF000u16.wrapping_add(i as u16)).into()).collect(), ..Default::default() };
+            check(&format!("Capabilities_extensions_content_{target}"), &caps, ev)?;
+        }
+    }
+    // proposal types 0..=7 are reserved for the RFC's own proposals: a custom proposal of such a type must either not
+    // encode, or round-trip
+    for t in 0u16..=9 {
+        let p = Proposal::Custom(CustomProposal::new(ProposalType::new(t), vec![1, 2, 3]));
+        check(&format!("custom_proposal_type_{t}"), &p, ev)?;
+    }
+    Ok(())
+}
+
 fn varint_exhaustive(ev: &Evidence, tier: Tier, seed: u64) -> CaseResult {
     for a in 0..=255u8 {
         varint_check(&[a], ev)?;
@@ -604,7 +660,7 @@ pub fn run(ctx: &Ctx) -> ! {
          harvested library output) mutated by bit flips, byte sets, truncation, insertion, deletion, varint-form overwrites/insertions, \
          out-of-range discriminants and splices; valid inputs unchanged; values built by the crate's `arbitrary` feature, encoded, and fed back. \
          Oracle per input: no panic; peak heap growth <= 4096*len + 1 MiB; Ok(v) => encode(v) == consumed bytes, mls_encoded_len == bytes written, \
-         decode(encode(v)) == v. Plus every 1- and 2-byte varint form and sampled 4-byte forms against an RFC 9000 reference decoder. Plus the state a member stores \
+         decode(encode(v)) == v. Plus collections whose content length sits on the size-header boundaries (63/64, 16383/16384 bytes) and custom proposals of the reserved types 0-9. Plus every 1- and 2-byte varint form and sampled 4-byte forms against an RFC 9000 reference decoder. Plus the state a member stores \
          (snapshot incl. secret tree with skipped message keys, pending commit, pending updates, cached proposals; prior epochs) taken from generated group histories (hook): reported length == \
          bytes written, decodes completely, re-encodes to the same length, decoded value equal. \
          Non-trivial = input that a decoder ACCEPTED (distinct by target+bytes), arbitrary value encoding to >= 32 bytes (distinct by encoding), accepted varint value.",
@@ -658,6 +714,9 @@ pub fn run(ctx: &Ctx) -> ! {
         }
     }
 
+    if let Err(f) = boundary_values(&ev) {
+        finish_violation(&ev, Violation { failure: f, case: None }, json!({"kind": "boundary"}));
+    }
     if let Err(f) = varint_exhaustive(&ev, ctx.tier, ctx.seed) {
         finish_violation(&ev, Violation { failure: f, case: None }, json!({"kind": "varint"}));
     }
@@ -847,7 +906,7 @@ fn fuzz_stage(ctx: &Ctx, ev: &Evidence) -> Result<(), (Failure, Value)> {
         if e.file_name().to_string_lossy().starts_with("fuzz-") {
             let log = std::fs::read_to_string(e.path()).unwrap_or_default();
             for l in log.lines() {
-                if let Some(n) = l.strip_prefix("stat::number_of_executed_units:") {
+                if let Some(n) = l.strip_prefix("Done ").and_then(|r| r.split(' ').next()) {
                     execs += n.trim().parse::<u64>().unwrap_or(0);
                 }
             }
@@ -879,6 +938,7 @@ fn fuzz_stage(ctx: &Ctx, ev: &Evidence) -> Result<(), (Failure, Value)> {
 
 fn replay_one(v: &Value, targets: &[Target], corpus: &Corpus, ev: &Evidence) -> CaseResult {
     match v["kind"].as_str() {
+        Some("boundary") => boundary_values(ev),
         Some("live_state") => {
             let mut hp = crate::history::HistoryParams::standard(Tier::Quick);
             hp.max_initial = 5;
